@@ -133,8 +133,9 @@ MAX_MODES = {"bw": [], "br": ["-br"], "rb": ["-rb"], "br2": ["-br2"], "rb2": ["-
              "s10": ["-s10"], "s11": ["-s11"]}
 
 
-def enc_max(bits, cols, rows, newsroom=False, skip=0, lenfield=None, first=0):
-    """bits[row][col] in {0,1}; cols multiple of 8."""
+def enc_max(bits, cols, rows, newsroom=False, skip=0, lenfield=None, first=0, load=0x0E00):
+    """bits[row][col] in {0,1}; cols multiple of 8.  load: the DECB load address in the 5-byte preamble (where the block
+    would go in a CoCo's memory - nothing to do with the picture)."""
     body = bytearray()
     for y in range(rows):
         for x in range(0, cols, 8):
@@ -146,7 +147,7 @@ def enc_max(bits, cols, rows, newsroom=False, skip=0, lenfield=None, first=0):
         head = bytes([cols // 8, rows])
     else:
         size = (cols * rows // 8) if lenfield is None else lenfield
-        head = bytes([first, (size >> 8) & 255, size & 255, 0x0E, 0x00])
+        head = bytes([first, (size >> 8) & 255, size & 255, (load >> 8) & 255, load & 255])
     return bytes([0x55] * skip) + head + bytes(body)
 
 
